@@ -504,3 +504,61 @@ def run_property_io(pid, tier, seed):
     suite = io_suite(tier, seed)
     viol, cov = analyse_io(pid, suite)
     return {'violations': viol, 'coverage': cov}
+
+
+# ---------------------------------------------------------------- portable scalars (C16)
+
+def run_portable(tier, seed):
+    import portable_cases
+    t0 = time.time()
+    shapes = type_shapes(tier, seed)
+    runner = vlib.build_runner()
+    harness = vlib.build_harness(shapes)
+    lines = portable_cases.generate(seed, tier)
+    mres = vlib.run_model(runner, lines, shards=16)
+    rres = vlib.run_rust(harness, lines, shards=16)
+    return {'cases': lines, 'mres': mres, 'rres': rres, 'wall': time.time() - t0}
+
+
+def run_property_portable(pid, tier, seed):
+    suite = cached('portable', tier, seed, lambda: run_portable(tier, seed))
+    viol = []
+    hist = collections.Counter()
+    distinct = set()
+    samples = []
+    n_model = 0
+    for l in suite['cases']:
+        toks = l.split(' ')
+        cid, ty, op = toks[1], toks[2], toks[3]
+        m, r = suite['mres'].get(cid), suite['rres'].get(cid)
+        hist['%s' % op] += 1
+        if r is None or 'HARNESS-ERROR' in r:
+            viol.append({'what': 'no result for %s' % l, 'case': l, 'impl': r, 'concrete': False, 'source': 'correspondence'})
+            continue
+        body = r.split(' ', 1)[1]
+        distinct.add((ty, op, body))
+        if op in ('enc', 'dec', 'val'):
+            n_model += 1
+            mb = m.split(' ', 1)[1] if m else None
+            if mb != body:
+                viol.append({'what': 'portable %s %s: the stored bytes / decoded value differ from the fixed byte order of the '
+                                     'model: model=%s impl=%s' % (ty, op, mb, body), 'case': l, 'impl': r, 'model': m,
+                             'concrete': True, 'source': 'oracle'})
+        else:
+            kv = dict(x.split('=', 1) for x in body.split(' ') if '=' in x)
+            if kv.get('p') != kv.get('n'):
+                viol.append({'what': 'portable %s %s gives %s, the native type gives %s' % (ty, op, kv.get('p'), kv.get('n')),
+                             'case': l, 'impl': r, 'concrete': True, 'source': 'oracle'})
+        if len(samples) < 5 and len(distinct) % 4001 == 1:
+            samples.append({'case': l, 'impl': r})
+    cov = {
+        'evaluations': len(suite['cases']), 'distinct_nontrivial': len(distinct),
+        'rule': 'all 16 portable scalar types and Bool: enc/dec exhaustively for the 16-bit types and all 256 bytes for '
+                'Bool, boundary and seeded values for wider types (compared with the model byte for byte); every trait '
+                'method on boundary x boundary pairs against the native type in Rust (panic vs panic included). distinct = '
+                'distinct (type, operation, result).',
+        'samples': samples or [{'case': suite['cases'][0]}], 'exhaustive': False,
+        'compared_with_model': n_model, 'op_histogram': dict(hist), 'programs': 17,
+        'suite_wall_s': round(suite.get('wall', 0), 1),
+    }
+    return {'violations': viol, 'coverage': cov}
